@@ -133,6 +133,9 @@ func Curated() []*Grammar {
 		{Name: "any((abx)?,a)", Rules: []*G{A(O(S(a, b, x)), a)}, Finite: true, LRFree: true},
 		{Name: "any((abx)?,a)b?", Rules: []*G{S(A(O(S(a, b, x)), a), O(b))}, Finite: true, LRFree: true},
 		{Name: "A->Ax|X;X->A?b", Rules: []*G{A(S(N(0), x), N(1)), S(O(N(0)), b)}, Finite: true, Recursive: true},
+		{Name: "P->x?aP|b", Rules: []*G{A(S(O(x), a, N(0)), b)}, Finite: true, LRFree: true, Recursive: true},
+		{Name: "x(ab)*x", Rules: []*G{S(x, M(S(a, b)), x)}, Finite: true, LRFree: true},
+		{Name: "x sepby(ab,x) b", Rules: []*G{S(x, SB(S(a, b), x), b)}, Finite: true, LRFree: true},
 		{Name: "(a|nl)*b", Rules: []*G{S(M(A(a, nl)), b)}, Finite: true, LRFree: true},
 		{Name: "L->L nl a|a", Rules: []*G{A(S(N(0), nl, a), a)}, Finite: true, Recursive: true},
 	})
